@@ -665,13 +665,17 @@ class BaseTaskPool:
                 return_exceptions=return_exceptions,
             )
         self._meta_tasks_cancelled.clear()
+        # Only forget the tasks gathered here; others may end in the meantime.
+        ended = dict(self._tasks_ended)
+        cancelled = dict(self._tasks_cancelled)
         await gather(
-            *self._tasks_ended.values(),
-            *self._tasks_cancelled.values(),
+            *ended.values(),
+            *cancelled.values(),
             return_exceptions=return_exceptions,
         )
-        self._tasks_ended.clear()
-        self._tasks_cancelled.clear()
+        for task_id in (*ended, *cancelled):
+            self._tasks_ended.pop(task_id, None)
+            self._tasks_cancelled.pop(task_id, None)
 
     async def gather_and_close(
         self,
